@@ -77,6 +77,9 @@ def worker(args):
             if any(op[0] == 'objflush' and op[1] in deleted for op in small):
                 # one defect, one name: obj.flush() of a deleted object sends its DELETE before the queued updates of its dependents
                 sig = 'obj.flush()-of-deleted-object|later-flush-fails-with-%s' % exc
+            elif any(op[0] == 'objflush' for op in small[:-1]) and exc == 'OptimisticCheckError':
+                # the same defect without a deletion: obj.flush() writes ONE object of a re-linked pair out of the queued order
+                sig = 'obj.flush()-of-one-object-of-a-relinked-pair|later-flush-fails-with-%s' % exc
             sub.violation(sig,
                           dict(model=name, fixture=fixture, history=small, error=msg),
                           'flush of an orderable set of writes failed: %s: %s' % (exc, msg[:200]))
